@@ -249,11 +249,21 @@ pub fn c12(run: &'static Run) -> (u64, u64) {
 /// C12 under schedules: tvc-sched explores every interleaving of the command loop and the search thread for
 /// scripts in which ucinewgame follows a search, and asserts that the tables are empty when ucinewgame returns.
 pub fn newgame_under_schedules(run: &Run) -> (u64, u64) {
+    under_schedules(run, "newgame")
+}
+
+/// C13 under schedules: a setoption Hash with a new value, sent while no bestmove is outstanding, must take effect
+/// (the table is replaced) under every interleaving with the just-finished search thread.
+pub fn setoption_under_schedules(run: &Run) -> (u64, u64) {
+    under_schedules(run, "setoption")
+}
+
+fn under_schedules(run: &Run, mode: &str) -> (u64, u64) {
     let Ok(bin) = std::env::var("VERIF_SCHED_BIN") else {
         run.machinery_error("VERIF_SCHED_BIN is not set (./check builds tvc-sched for C12)".to_string());
         return (0, 0);
     };
-    let out = match std::process::Command::new(&bin).arg("newgame").arg(&run.tier).output() {
+    let out = match std::process::Command::new(&bin).arg(mode).arg(&run.tier).output() {
         Ok(o) => String::from_utf8_lossy(&o.stdout).to_string(),
         Err(e) => {
             run.machinery_error(format!("cannot run {bin}: {e}"));
@@ -261,7 +271,7 @@ pub fn newgame_under_schedules(run: &Run) -> (u64, u64) {
         }
     };
     let Some(line) = out.lines().find(|l| l.starts_with("NEWGAME-RESULT ")) else {
-        run.machinery_error("tvc-sched newgame produced no result".to_string());
+        run.machinery_error(format!("tvc-sched {mode} produced no result"));
         return (0, 0);
     };
     let j = match J::parse(line.trim_start_matches("NEWGAME-RESULT ")) {
@@ -279,9 +289,14 @@ pub fn newgame_under_schedules(run: &Run) -> (u64, u64) {
             run.machinery_error(format!("schedule for [{script}] does not replay deterministically"));
             continue;
         }
-        run.violation("ucinewgame-not-fresh-under-schedule", format!("ucinewgame-schedule|{}", f.get("script").and_then(|x| x.as_str()).unwrap_or("")), f.clone(), format!("[{script}] under some interleaving of the command loop and the search thread: {msg}"));
+        let kind = if mode == "newgame" { "ucinewgame-not-fresh-under-schedule" } else { "setoption-not-applied-under-schedule" };
+        run.violation(kind, format!("{kind}|{}", f.get("script").and_then(|x| x.as_str()).unwrap_or("")), f.clone(), format!("[{script}] under some interleaving of the command loop and the search thread: {msg}"));
     }
-    run.family("E6-NEWGAME", &format!("every well-formed script of length <= {} in which a ucinewgame follows a search, every schedule with <= {} preemptions (shuttle): when ucinewgame returns the shared tables are empty", gi("max_length"), gi("preemption_bound")), gi("executions"), gi("steps"), true, &format!("{} scripts", gi("scripts")));
+    if mode == "newgame" {
+        run.family("E6-NEWGAME", &format!("every well-formed script of length <= {} in which a ucinewgame follows a search, every schedule with <= {} preemptions (shuttle): when ucinewgame returns the shared tables are empty", gi("max_length"), gi("preemption_bound")), gi("executions"), gi("steps"), true, &format!("{} scripts", gi("scripts")));
+    } else {
+        run.family("E6-SETOPTION", &format!("every well-formed script of length <= {} in which a setoption Hash (always a new value) follows a search, every schedule with <= {} preemptions (shuttle): when setoption returns the table has been replaced", gi("max_length"), gi("preemption_bound")), gi("executions"), gi("steps"), true, &format!("{} scripts", gi("scripts")));
+    }
     (gi("executions"), gi("steps"))
 }
 
@@ -407,7 +422,7 @@ pub fn replay_uci(run: &'static Run, case: &J) {
 /// replayed on the reference model (legal line, depth sequence, mate length).
 pub fn c08_text(run: &'static Run) -> (u64, u64) {
     let roots = crate::searchchk::tactical_roots();
-    let maxd = if run.quick() { 5 } else { 7 };
+    let maxd: u32 = if run.quick() { 5 } else { 7 };
     let n = AtomicU64::new(0);
     let lines_checked = AtomicU64::new(0);
     par_for(roots.len(), |i| {
@@ -418,7 +433,11 @@ pub fn c08_text(run: &'static Run) -> (u64, u64) {
             pos_line.push_str(" moves ");
             pos_line.push_str(&g.moves.join(" "));
         }
-        let script = vec![pos_line.clone(), format!("go depth {maxd}")];
+        // the depth limit phrased in different but equivalent ways (other limits that cannot bind, either field order)
+        let phrasings = [format!("go depth {maxd}"), format!("go depth {maxd} infinite"), format!("go infinite depth {maxd}"), format!("go depth {maxd} movetime 100000000"), format!("go wtime 100000000 btime 100000000 depth {maxd}"), format!("go depth {maxd} nodes 100000000"), "go depth 0".to_string()];
+        let go_line = phrasings[i % phrasings.len()].clone();
+        let maxd: u32 = if go_line == "go depth 0" { 0 } else { maxd };
+        let script = vec![pos_line.clone(), go_line];
         let case = J::obj(vec![("kind", J::s("uci-script")), ("hash_mb", J::i(1)), ("lines", J::Arr(script.iter().map(|l| J::s(l.clone())).collect()))]);
         let work = {
             let script = script.clone();
@@ -427,7 +446,7 @@ pub fn c08_text(run: &'static Run) -> (u64, u64) {
                 for l in &script {
                     d.send(l).ok()?;
                 }
-                if d.wait_search(WAIT) != Wait::Finished {
+                if d.wait_search(Duration::from_secs(40)) != Wait::Finished {
                     return None;
                 }
                 Some(d.take())
@@ -435,7 +454,7 @@ pub fn c08_text(run: &'static Run) -> (u64, u64) {
         };
         n.fetch_add(1, Ordering::Relaxed);
         let Some(out) = crate::util::with_timeout(150, work).flatten() else {
-            run.violation("uci-search-did-not-finish", format!("uci-text|{}", script.join(" ; ")), case, "no answer".into());
+            run.violation("uci-search-did-not-finish", format!("uci-text|{}", script.join(" ; ")), case, format!("[{}]: the search did not end at its depth limit (no bestmove within the time-out)", script.join(" ; ")));
             return;
         };
         let mut expect = 1u32;
@@ -484,7 +503,7 @@ pub fn c08_text(run: &'static Run) -> (u64, u64) {
     });
     let a = n.load(Ordering::Relaxed);
     let b = lines_checked.load(Ordering::Relaxed);
-    run.family("UCI-TEXT", &format!("{} roots x go depth {maxd} through the real command loop: every printed info line parsed and replayed on the reference model", roots.len()), a, b, true, "the text a GUI receives, not the in-process SearchInfo");
+    run.family("UCI-TEXT", &format!("{} roots x go depth {maxd}, the limit phrased in 7 equivalent ways in turn (with infinite / movetime / clocks / nodes that cannot bind, either order; depth 0), through the real command loop: every printed info line parsed and replayed on the reference model", roots.len()), a, b, true, "the text a GUI receives, not the in-process SearchInfo");
     run.count("printed_info_lines", b);
     (a, b)
 }
@@ -658,6 +677,7 @@ pub fn c13(run: &'static Run) -> (u64, u64) {
                 scenarios.push(vec![set("Hash", o.max), "go".into(), set("Hash", o.min), "go".into(), set("Hash", o.max)]);
                 // between searches with the other between-search commands a GUI sends
                 for a in [o.min, 1, 8] {
+                    scenarios.push(vec![set("Hash", a), "ucinewgame".into(), "go".into(), "ucinewgame".into(), "go".into()]);
                     scenarios.push(vec!["go".into(), "ucinewgame".into(), set("Hash", a)]);
                     scenarios.push(vec!["go".into(), "stop".into(), set("Hash", a)]);
                     scenarios.push(vec![set("Hash", a), "go".into(), "ucinewgame".into(), set("Hash", 2), "go".into(), "stop".into(), "ucinewgame".into(), set("Hash", a)]);
@@ -699,7 +719,7 @@ pub fn c13(run: &'static Run) -> (u64, u64) {
             }
             scenarios.push(all);
             for v in [o.min, o.max, (o.min + o.max) / 2] {
-                scenarios.push(vec![set(&o.name, v), "go wtime 30000 btime 30000 movestogo 40 depth 3".into(), "go wtime 2000 btime 2000 winc 100 binc 100 depth 3".into(), "go movetime 5000 depth 3".into()]);
+                scenarios.push(vec![set(&o.name, v), "go wtime 30000 btime 30000 movestogo 40 depth 3".into(), "go wtime 2000 btime 2000 winc 100 binc 100 depth 3".into(), "go movetime 5000 depth 3".into(), "go movetime 100 depth 3".into(), "go movetime 1 depth 2".into(), "go wtime 100 btime 100 depth 3".into()]);
                 scenarios.push(vec![set(&o.name, v)]);
                 scenarios.push(vec!["go".into(), set(&o.name, v)]);
                 scenarios.push(vec!["go".into(), "ucinewgame".into(), set(&o.name, v)]);
@@ -836,6 +856,10 @@ pub fn c17(run: &Run) -> (u64, u64) {
         ("fen r3k2r/p1ppqpb1/bn2pnp1/3PN3/1p2P3/2N2Q1p/PPPBBPPP/R3K2R w KQkq -", 2 + e),
         ("fen 8/2p5/3p4/KP5r/1R3p1k/8/4P1P1/8 w - -", 3 + e),
         ("fen 4k3/8/8/8/8/8/4P3/4K2R b K - 99 60", 3 + e),
+        // optional fields omitted, Black to move
+        ("fen rnbqkbnr/pppppppp/8/8/4P3/8/PPPP1PPP/RNBQKBNR b KQkq -", 3),
+        ("fen rnbqkbnr/pppppppp/8/8/4P3/8/PPPP1PPP/RNBQKBNR b KQkq - 7", 2),
+        ("fen r3k2r/8/8/8/8/8/8/R3K2R b KQkq -", 3),
     ];
     let n = AtomicU64::new(0);
     par_for(fens.len(), |i| {
